@@ -399,6 +399,10 @@ def check(model, rep, tier):
           (want == 'append' and len(c.args) == 1 and isinstance(
               c.args[0], ast.Name) and c.args[0].id == 'self') or
           (want == 'pop' and not c.args and not c.keywords))
+      # del stack[-1] removes the top like pop()
+      if want == 'pop' and isinstance(c, ast.Delete) and len(c.targets) == 1 and \
+          core.norm(c.targets[0].slice) == '-1':
+        is_good = True
       (good if is_good else bad).append(c)
     site = '%s:%s' % (fi.site, label)
     for c in bad:
@@ -414,6 +418,7 @@ def check(model, rep, tier):
     for i in range(len(g.nodes)):
       cs = pycfg.calls_at(g, i)
       k = sum(1 for c in cs if any(c is x for x in good))
+      k += sum(1 for x in good if isinstance(x, ast.Delete) and g.nodes[i][1] is x)
       if k:
         w[i] = k
     rng = g.count_range(w, skip_labels=())
